@@ -187,8 +187,14 @@ func (e Float64Engine) Add(a Tensor, b Tensor, opts ...FuncOpt) (retVal Tensor, 
 	var hdrA, hdrB, hdrReuse *storage.Header
 	var dataA, dataB, dataReuse []float64
 
-	if hdrA, hdrB, hdrReuse, _, _, _, _, _, err = prepDataVV(a, b, reuse); err != nil {
+	var useIter bool
+	if hdrA, hdrB, hdrReuse, _, _, _, useIter, _, err = prepDataVV(a, b, reuse); err != nil {
 		return nil, errors.Wrapf(err, "Float64Engine.Add")
+	}
+	if useIter {
+		// the destination cannot be written in storage order (a lazily transposed or strided reuse/incr
+		// tensor), or the data orders differ: the flat kernels below do not apply
+		return e.StdEng.Add(a, b, opts...)
 	}
 	dataA = hdrA.Float64s()
 	dataB = hdrB.Float64s()
